@@ -51,7 +51,8 @@ def cfg(ro, mw, fl, rs):
 
 CFG_G = cfg(7, 3, 5, 11)     # generic: pairwise different, no small coincidences
 CFG_H = cfg(3, 11, 7, 5)     # another order
-CFG_NAMES = {'G': CFG_G, 'H': CFG_H}
+CFG_Z = cfg(0, 3, 0, 5)     # zero-length readout and flux operations
+CFG_NAMES = {'G': CFG_G, 'H': CFG_H, 'Z': CFG_Z}
 
 
 def cfg_by_name(name):
